@@ -77,6 +77,7 @@ void sim_drain(void);           /* DESIGN 2.8 quiescence */
 int sim_fiber_index(void* f);   /* creation index of a fiber (ghost), -1 unknown */
 int sim_fiber_dead(void* f);    /* control block freed */
 int sim_fiber_switch_ins(void* f);
+long sim_fiber_bypassed(void* f); /* fiber switches on the kernel thread whose run queue has held f since f was pushed there; -1 if f is not queued */
 int sim_fiber_wakeups(void* f);   /* times f was made runnable by a wake-up (not creation, not its own yield) */
 void* sim_current_fiber(void);
 int sim_fiber_lib_state(void* f); /* libfiber's fiber_t.state */
